@@ -12,12 +12,10 @@
 //   crates/core/src/encoding/mod.rs:28  encoding_options()
 // ===========================================================================
 
-/// binary_stream::Options — carried, never inspected here (the 16 MiB guard
-/// and little-endian order are built into the BinaryReader stand-in).
-#[verifier::external_body]
-pub struct Options { _p: () }
-
 /// crates/core/src/encoding/mod.rs:28: `Options { endian: Little, max_buffer_size: Some(16 MiB) }`
+/// (`Options` is declared in prelude/binary_stream.rs; the value is carried, never
+/// inspected here: the 16 MiB guard and little-endian order are built into the
+/// BinaryReader stand-in)
 #[verifier::external_body]
 pub fn encoding_options() -> Options { unimplemented!() }
 
@@ -74,7 +72,6 @@ impl<R> BinaryReader<R> {
             final(self)@.wf(),
             r.is_ok() ==> final(self)@.pos == (if p as nat <= old(self)@.bytes.len() { p as nat } else { old(self)@.bytes.len() }),
             r.is_ok() ==> r.unwrap() == p,
-            r.is_err() ==> final(self)@ == old(self)@,
     { unimplemented!() }
 }
 
